@@ -138,9 +138,20 @@ impl HubObs {
     pub fn last_undelegation(&self) -> u64 {
         self.history.iter().map(|h| h.time).max().unwrap_or(crate::deploy::GENESIS)
     }
-    /// the bSei rate as C03 defines it: backing over claims (1 when either is zero)
+    /// the bSei rate as C03 defines it: backing over claims (1 when either is zero). While nothing at all is
+    /// booked, C03 defines no rate ("whenever stake is bonded"): the hub then keeps pricing with the rate it stored
+    /// last, which harms nobody (the first bonder's tokens are worth exactly its payment), so that rate is used
     pub fn bsei_rate_derived(&self) -> cosmwasm_std::Decimal {
+        if self.books() == 0 {
+            return self.state.bsei_exchange_rate;
+        }
         crate::hubcore::expected_rate(self.state.total_bond_bsei_amount.u128(), self.b_claims())
+    }
+    pub fn stsei_rate_derived(&self) -> cosmwasm_std::Decimal {
+        if self.books() == 0 {
+            return self.state.stsei_exchange_rate;
+        }
+        crate::hubcore::expected_rate(self.state.total_bond_stsei_amount.u128(), self.st_claims())
     }
     pub fn b_claims(&self) -> u128 {
         self.bsei_supply + self.batch.requested_bsei_with_fee.u128()
